@@ -53,6 +53,7 @@ TOL = {
     "surf": 1e-7,      # * rb: |D| at a reported intersection (10 x the solver's documented 1e-8 * rb)
     "margin": 1e-6,    # * rb: the oracle abstains on the sense this close to a boundary of the region
     "t_edge": 1e-6,    # crossings with t_P this close to tmin / tmax are optional
+    "wide": 1e-5,      # * rb: a zone wider than this is a shallow (ill-conditioned, sin < 0.02) contact: optional
     "on_lo": 0.5e-6,   # * rb (2-D distance): SurfaceState::on -- crossings nearer than this must be dropped
     "on_hi": 2e-6,     # * rb: ... farther than this must be reported (documented threshold 1e-6 * rb)
     "nlen": 1e-12,     # unit of the reported |n|^2 - 1
@@ -93,8 +94,23 @@ class Inv:
         dl = np.where(dl <= -PI, dl + TWO_PI, dl)
         return tp, dl
 
-    def sense(self, x, y):
-        """-1 inside, +1 outside, 0 = within MARGIN of a boundary (abstain)."""
+    def tp_delta1(self, X, Y):
+        """Scalar version of tp_delta (python floats)."""
+        q = (X * X + Y * Y) / (self.rb * self.rb) - 1.0
+        if not q >= 0:
+            return math.nan, math.nan
+        tp = math.sqrt(q)
+        dl = (math.atan2(Y, X) - tp + math.atan(tp) - self.a + PI) % TWO_PI - PI
+        if dl <= -PI:
+            dl += TWO_PI
+        return tp, dl
+
+    def sense2(self, x, y):
+        """(sense, negwin): sense -1 inside, +1 outside, 0 = within MARGIN of a boundary of the
+        region (abstain).  negwin (scoping of the named deviation
+        InvoluteSenseNegativeTangentAngle): the point is inside and the tangent angle
+        t_P + a_P of the turn that makes it so is negative (only possible for a stored
+        displacement angle < 0, i.e. a clockwise involute constructed with a > pi)."""
         X, Y = self.local(x, y)
         rb = self.rb
         mg = TOL["margin"] * rb
@@ -102,19 +118,26 @@ class Inv:
         r1 = rb * math.sqrt(1 + self.tmin ** 2)
         r2 = rb * math.sqrt(1 + self.tmax ** 2)
         if abs(rho - r1) <= mg or abs(rho - r2) <= mg or abs(rho - rb) <= mg:
-            return 0
+            return 0, False
         if rho < rb or rho < r1 or rho > r2:
-            return 1
-        tp, dl = self.tp_delta(X, Y)
-        tp = float(tp)
-        d0 = float(dl) % TWO_PI
+            return 1, False
+        tp, dl = self.tp_delta1(X, Y)
+        d0 = dl % TWO_PI
         cut = self.tmax - tp
         ang = mg / rb
         if d0 <= ang or TWO_PI - d0 <= ang:
-            return 0
-        if abs(d0 - cut) * (1 + tp) <= ang * (1 + tp) + 1e-12 or abs(d0 - cut) * rho <= mg:
-            return 0
-        return -1 if d0 < cut else 1
+            return 0, False
+        if abs(d0 - cut) <= ang or abs(d0 - cut) * rho <= mg:
+            return 0, False
+        if d0 < cut:
+            theta = self.a + d0 + tp
+            if abs(theta) <= 1e-9:
+                return 0, False
+            return -1, theta < 0
+        return 1, False
+
+    def sense(self, x, y):
+        return self.sense2(x, y)[0]
 
     def normal(self, x, y):
         """Outward unit normal by central differences of D (None inside the base circle)."""
@@ -125,9 +148,9 @@ class Inv:
         h = 1e-6 * rho
 
         def dd(p, q):
-            _, d1 = self.tp_delta(*p)
-            _, d2 = self.tp_delta(*q)
-            d = float(d1) - float(d2)
+            _, d1 = self.tp_delta1(*p)
+            _, d2 = self.tp_delta1(*q)
+            d = d1 - d2
             d = (d + PI) % TWO_PI - PI
             return d
         gx = dd((X + h, Y), (X - h, Y)) / (2 * h)
@@ -160,8 +183,8 @@ class Ray2:
         return tp, dl * self.inv.rb
 
     def D1(self, s):
-        tp, D = self.tpD(s)
-        return float(tp), float(D)
+        tp, dl = self.inv.tp_delta1(self.X0 + s * self.U, self.Y0 + s * self.V)
+        return tp, dl * self.inv.rb
 
     def circle(self, r):
         """sigma values where the line meets the circle of radius r about o."""
@@ -311,17 +334,26 @@ def find_zones(inv, ray, seeds):
     ivs = []
     for c, isx in items:
         lo, hi = extent(c)
-        ivs.append([min(lo, c), max(hi, c), [c] if isx else []])
+        ivs.append([min(lo, c), max(hi, c), [c] if isx else [], True])
+    # the two END POINTS of the curve (t = tmin is a cusp on the base circle when tmin = 0): a ray
+    # passing within tolS of one of them may or may not count as hitting the surface
+    for te in (inv.tmin, inv.tmax):
+        EX, EY = inv.curve(te)
+        sE = (EX - ray.X0) * ray.U + (EY - ray.Y0) * ray.V
+        hE = abs((EX - ray.X0) * ray.V - (EY - ray.Y0) * ray.U)
+        if hE <= tolS and sE > -2 * tolS:
+            ivs.append([max(sE - 2 * tolS, 0.0), sE + 2 * tolS, [], False])
     ivs.sort(key=lambda v: v[0])
     merged = []
     for iv in ivs:
         if merged and iv[0] <= merged[-1][1]:
             merged[-1][1] = max(merged[-1][1], iv[1])
             merged[-1][2] += iv[2]
+            merged[-1][3] = merged[-1][3] and iv[3]
         else:
-            merged.append(iv)
+            merged.append(list(iv))
     zones = []
-    for lo, hi, xs in merged:
+    for lo, hi, xs, free in merged:
         # distinct crossings (the same one may have been found twice)
         xs = sorted(xs)
         ux = []
@@ -331,11 +363,79 @@ def find_zones(inv, ray, seeds):
         ts = [ray.D1(s)[0] for s in (lo, hi, 0.5 * (lo + hi)) + tuple(ux)]
         ts = [t for t in ts if t == t]
         tl, th = (min(ts), max(ts)) if ts else (math.nan, math.nan)
-        if ts and (th < inv.tmin - et or tl > inv.tmax + et):
+        if free and ts and (th < inv.tmin - et or tl > inv.tmax + et):
             continue            # entirely outside [tmin, tmax]: not part of the surface
-        interior = bool(ts) and tl >= inv.tmin + et and th <= inv.tmax - et
-        zones.append({"lo": float(lo), "hi": float(hi), "nx": len(ux), "interior": bool(interior)})
+        interior = free and bool(ts) and tl >= inv.tmin + et and th <= inv.tmax - et
+        tx = ray.D1(ux[0])[0] if len(ux) == 1 else math.nan
+        zones.append({"lo": float(lo), "hi": float(hi), "nx": len(ux), "interior": bool(interior), "tx": tx})
     return zones
+
+
+def solver_brackets(inv, ray):
+    """DEVIATION SCOPING ONLY (never used for a verdict on a reported value): the sequence of
+    search brackets of detail::InvoluteSolver::operator() as documented there -- t_lower = 0,
+    t_upper = the first non-negative value of beta - a + k pi with beta = atan(-v/u); after a
+    bracket whose end values of the root function have different signs the next one is pi wide,
+    otherwise pi/i wide with i = 1, 2, ... counting the failures -- together with, for each
+    bracket, the number of roots of the line/curve offset g(t) = (C(t) - P) x e inside it.
+    g'(t) = t (v cos(t+a) - u sin(t+a)) vanishes where the curve is parallel to the ray, so g
+    is monotone between consecutive values of atan(v/u) - a + k pi and roots are counted exactly
+    from the signs at those points.  A crossing whose bracket holds an EVEN number of roots is
+    invisible to the solver's sign test (named deviation InvoluteSolverBracketParity)."""
+    U, V = ray.U, ray.V
+    a, rb = inv.a, inv.rb
+
+    def g(t):
+        th = t + a
+        cx = rb * (math.cos(th) + t * math.sin(th)) - ray.X0
+        cy = rb * (math.sin(th) - t * math.cos(th)) - ray.Y0
+        return cx * V - cy * U
+
+    def sgn(x):
+        return (x > 0) - (x < 0)
+    if U != 0:
+        beta = math.atan(-V / U)
+    elif -V < 0:
+        beta = -0.5 * PI
+    else:
+        beta = 0.5 * PI
+    t_lower = 0.0
+    t_upper = beta - a
+    t_upper += max(0.0, -math.floor(t_upper / PI)) * PI
+    i = 1
+    ext0 = math.atan2(V, U) - a          # extrema of g: ext0 + k pi
+    out = []
+    guard = 0
+    while t_lower < inv.tmax and guard < 10000:
+        guard += 1
+        fl, fu = g(t_lower), g(t_upper)
+        found = sgn(fl) != sgn(fu)
+        # count the roots inside by monotone pieces
+        k0 = math.ceil((t_lower - ext0) / PI)
+        cuts = [t_lower]
+        k = k0
+        while ext0 + k * PI < t_upper:
+            if ext0 + k * PI > t_lower:
+                cuts.append(ext0 + k * PI)
+            k += 1
+        cuts.append(t_upper)
+        nroots = 0
+        tiny = False
+        for c0, c1 in zip(cuts[:-1], cuts[1:]):
+            g0, g1 = g(c0), g(c1)
+            if abs(g0) <= 1e-9 * rb or abs(g1) <= 1e-9 * rb:
+                tiny = True
+            if sgn(g0) * sgn(g1) < 0:
+                nroots += 1
+        out.append({"lo": t_lower, "hi": t_upper, "found": found, "n": nroots, "tiny": tiny})
+        if found:
+            t_lower = t_upper
+            t_upper += PI
+        else:
+            t_lower = t_upper
+            t_upper += PI / i
+            i += 1
+    return out
 
 
 def ray_facts(inv, p, d, dist, st):
@@ -358,6 +458,7 @@ def ray_facts(inv, p, d, dist, st):
     on_lo, on_hi = TOL["on_lo"] * rb, TOL["on_hi"] * rb
     vals = set()
     zout = []
+    brackets = None
     for z in zones:
         lo = z["lo"] * (1 - 1e-12)
         hi = z["hi"] * (1 + 1e-12)
@@ -367,8 +468,21 @@ def ray_facts(inv, p, d, dist, st):
         else:
             near = z["lo"] <= 0.0
             forbid = False
-        must = bool(z["nx"] == 1 and z["interior"] and not near)
-        zout.append({"lo": lo, "hi": hi, "nx": z["nx"], "must": must, "forbid": bool(forbid)})
+        must = bool(z["nx"] == 1 and z["interior"] and not near and z["hi"] - z["lo"] <= TOL["wide"] * rb)
+        # br: 0 = the solver's bracket around this crossing holds exactly this root (its sign test
+        # sees it), 1 = it holds an even number of roots (named deviation), 2 = undecidable
+        br = 2
+        if must and z["tx"] == z["tx"]:
+            if brackets is None:
+                brackets = solver_brackets(inv, ray)
+            bs = [b for b in brackets if b["lo"] <= z["tx"] <= b["hi"]]
+            if len(bs) == 1 and not bs[0]["tiny"]:
+                b = bs[0]
+                if b["found"] and b["n"] == 1:
+                    br = 0
+                elif not b["found"] and b["n"] % 2 == 0:
+                    br = 1
+        zout.append({"lo": lo, "hi": hi, "nx": z["nx"], "must": must, "forbid": bool(forbid), "br": br})
         vals.add(lo)
         vals.add(hi)
     for r in reps:
@@ -379,13 +493,15 @@ def ray_facts(inv, p, d, dist, st):
     out = {"st": st, "par": ray.speed == 0,
            "rep": [{"pos": r["pos"], "k": rank[r["sig"]] if r["sig"] is not None else 0} for r in reps],
            "zones": [{"lo": rank[z["lo"]], "hi": rank[z["hi"]], "nx": z["nx"], "must": z["must"],
-                      "forbid": z["forbid"]} for z in zout]}
+                      "forbid": z["forbid"], "br": z["br"]} for z in zout]}
     return out, zout, reps
 
 
-def normal_facts(inv, p, n):
-    """Residuals of the code's normal n at p against the numerical gradient (integers for TLC)."""
-    ref = inv.normal(p[0], p[1])
+def normal_facts(inv, p, n, direction=True):
+    """Residuals of the code's normal n at p against the numerical gradient (integers for TLC).
+    direction=False (points that are not on the surface, where calc_normal is not specified):
+    only finiteness, unit length and n_z = 0."""
+    ref = inv.normal(p[0], p[1]) if direction else None
     bad = any(isinstance(c, str) for c in n)
     if bad:
         return {"ck": ref is not None, "fin": False, "nl": 0, "nc": 0, "nd": 0, "nz": False}
@@ -401,16 +517,18 @@ def normal_facts(inv, p, n):
 
 def case_facts(raw, case):
     inv = Inv(case["o"], case["rb"], case["a"], case["sign"], case["tmin"], case["tmax"])
-    out = {"e": "Inv", "id": raw["id"], "sgn": raw.get("sign_back") == case["sign"]}
+    out = {"e": "Inv", "id": raw["id"], "cw": case["sign"] == "cw", "sgn": raw.get("sign_back") == case["sign"]}
     pts = []
     for pt in raw["pts"]:
         p = pt["p"]
-        f = normal_facts(inv, p, pt["n"])
-        f.update({"sn": pt["sn"], "os": inv.sense(p[0], p[1])})
+        f = normal_facts(inv, p, pt["n"], direction=False)
+        os_, nw = inv.sense2(p[0], p[1])
+        f.update({"sn": pt["sn"], "os": os_, "nw": nw})
         pts.append(f)
     out["pts"] = pts
     rays = []
-    stats = {"zones": 0, "must": 0, "forbid": 0, "hits": 0, "multi": 0, "graze": 0}
+    stats = {"zones": 0, "must": 0, "forbid": 0, "hits": 0, "multi": 0, "graze": 0, "even_bracket": 0,
+             "undecidable_bracket": 0}
 
     def account(zs):
         stats["zones"] += len(zs)
@@ -418,22 +536,24 @@ def case_facts(raw, case):
         stats["forbid"] += sum(1 for z in zs if z["forbid"])
         stats["multi"] += sum(1 for z in zs if z["nx"] > 1)
         stats["graze"] += sum(1 for z in zs if z["nx"] == 0)
+        stats["even_bracket"] += sum(1 for z in zs if z["must"] and z["br"] == 1)
+        stats["undecidable_bracket"] += sum(1 for z in zs if z["must"] and z["br"] == 2)
     for r in raw["rays"]:
         rf, zout, reps = ray_facts(inv, r["p"], r["d"], r["dist"], 0)
         account(zout)
         probes = []
-        finite = [x for x in reps if x["sig"] is not None]
-        for i, h in enumerate(r["hits"]):
-            osb = inv.sense(h["pb"][0], h["pb"][1])
-            osa = inv.sense(h["pa"][0], h["pa"][1])
-            sig = h["t"] * Ray2(inv, r["p"], r["d"]).speed if not isinstance(h["t"], str) else None
+        speed = Ray2(inv, r["p"], r["d"]).speed
+        for h in r["hits"]:
+            osb, nwb = inv.sense2(h["pb"][0], h["pb"][1])
+            osa, nwa = inv.sense2(h["pa"][0], h["pa"][1])
+            sig = h["t"] * speed if not isinstance(h["t"], str) else None
             must = False
             if sig is not None:
                 for z in zout:
                     if z["lo"] <= sig <= z["hi"]:
                         must = z["must"]
-            pf = {"sb": h["sb"], "osb": osb, "sa": h["sa"], "osa": osa,
-                  "flip": bool(must and osb * osa == -1)}
+            pf = {"sb": h["sb"], "osb": osb, "nwb": nwb, "sa": h["sa"], "osa": osa, "nwa": nwa,
+                  "flip": bool(must and osb * osa == -1 and not nwb and not nwa)}
             pf["nrm"] = normal_facts(inv, h["q"], h["n"])
             probes.append(pf)
             stats["hits"] += 1
@@ -453,10 +573,16 @@ def case_facts(raw, case):
     out["rays"] = rays
     trs = []
     for tr in raw["tr"]:
-        e = {"inv": bool(tr.get("inv")), "sgn": tr.get("sign_back") == case["sign"], "pts": []}
+        e = {"inv": bool(tr.get("inv")), "sgn": tr.get("sign_back") == case["sign"], "swp": False, "pts": []}
         if tr.get("inv"):
+            # scoping of the named deviation InvoluteTranslatorClockwiseAngle: the translated
+            # surface stores pi - (stored angle of the original) instead of the same angle
+            a0, a1 = raw["data"][3], tr["data"][3]
+            e["swp"] = bool(abs(a1 - (PI - a0)) <= 1e-12 and abs(a1 - a0) > 1e-9)
+            alt = Inv(case["o"], case["rb"], PI - case["a"], case["sign"], case["tmin"], case["tmax"])
             for pt, sn in zip(raw["pts"], tr["sn"]):
-                e["pts"].append({"sn": sn, "os": inv.sense(pt["p"][0], pt["p"][1])})
+                os_, nw = inv.sense2(pt["p"][0], pt["p"][1])
+                e["pts"].append({"sn": sn, "os": os_, "nw": nw, "os2": alt.sense(pt["p"][0], pt["p"][1])})
         trs.append(e)
     out["tr"] = trs
     return out, stats
